@@ -120,6 +120,7 @@ def write_replay(prop, r, f):
 def evidence(prop, tier, results, viols, known, undecided, wall):
     spec = PROPERTIES[prop]
     fns, trusted, assumptions, not_covered, samples, bounded, engines, cmds, diffs = [], [], [], [], [], [], set(), [], {}
+    known_excluded = []
     obligations = discharged = 0
     solver_ms = 0.0
     for r in results:
@@ -136,7 +137,11 @@ def evidence(prop, tier, results, viols, known, undecided, wall):
         if r['engine'] == 'verus':
             inv = r.get('inventory', {})
             failed = {f['obligation'] for f in r['failures']}
-            n = len(inv.get('clauses', [])) + len(inv.get('lemmas', [])) + inv.get('asserts', 0) + len(inv.get('functions', []))
+            known_o = {k['obligation'] for k in known if k.get('unit') == r['unit']}
+            for o in sorted(failed & known_o):
+                known_excluded.append({'obligation': o})
+            n = len(inv.get('clauses', [])) + len(inv.get('lemmas', [])) + inv.get('asserts', 0) + len(inv.get('functions', [])) - len(failed & known_o)
+            failed = failed - known_o
             obligations += n
             failed_n = len(failed)
             discharged += (n - failed_n) if r['status'] != 'undecided' else 0
@@ -162,8 +167,13 @@ def evidence(prop, tier, results, viols, known, undecided, wall):
         else:
             for lab, rel in u.functions:
                 fns.append({'function': lab, 'source': rel, 'engine': 'kani'})
+            known_h = {k.get('harness') for k in known if k.get('unit') == r['unit']}
             for h in r.get('harnesses', []):
                 if prop not in h['props']:
+                    continue
+                if h['harness'] in known_h:
+                    # a listed known finding: reported on its own line, part of neither `obligations` nor `discharged`
+                    known_excluded.append({'harness': h['harness'], 'obligation': h['obligation'], 'cbmc_checks': h['checks_total'], 'failed': h['checks_failed']})
                     continue
                 if h['kind'] == 'bounded':
                     bounded.append({'harness': h['harness'], 'obligation': h['obligation'], 'bound': h['bound'], 'result': h['result'],
@@ -195,6 +205,7 @@ def evidence(prop, tier, results, viols, known, undecided, wall):
         'samples': samples[:12] or [{'note': 'no obligation ran'}],
         'not_covered': sorted(set(not_covered)) + spec.get('not_covered', []),
         'known_findings_reported': [k['obligation'] for k in known],
+        'known_finding_obligations_excluded_from_counts': known_excluded,
         'violations_reported': [v['obligation'] for v in viols],
         'undecided': undecided[:20],
         'units': [{'unit': r['unit'], 'engine': r['engine'], 'status': r['status'], 'wall_s': round(r.get('wall_s', 0), 1),
